@@ -112,7 +112,7 @@ MANIFEST = {
             "NOT checked: that a C# compiler accepts the output (none available) -- e.g. whether 'override' on a method implementing an INTERFACE "
             "member is accepted is outside what is proved or observed. K-C19-8 (every 'virtual' in a realised C# method became 'override', also "
             "inside names) is repaired (ad20a65; corpus/C19/cs_virtual_word.json); K-C19-9 (A::B.csproj) is known. K-C19-7 (names lost = < > ; ( ) and were cut at colons) is repaired (b2960c5; corpus/C19/operator_names.json); what remains of mass_replace concerns values: K-C19-10. K-C19-11 (a class without package dropped its includes) and K-C19-12 (include path of a class whose name occurs in its package's name) "
-            "are repaired (17033ca, f787905; corpus cases). 'Accepted by a C++ compiler' stays an observation (g++), now backed by the include theorems; NOT modelled: "
+            "are repaired (8533b37, d5327f0; corpus cases). 'Accepted by a C++ compiler' stays an observation (g++), now backed by the include theorems; NOT modelled: "
             "the includes of attribute TYPES that are templates or typedefs, <string> / <cstdint> (the generator never emits them), user includes. Known findings K-C19-*.",
 }
 MANIFEST["text"] += " " + MANIFEST.pop("adaptor")
